@@ -1,8 +1,10 @@
 """C11 - saved histories, design spaces, problems and caches reload identically.
 
 Part H (engine E1, ``mc.explore.bfs``): explicit-state BFS over store/export histories of a real
-``Database`` and its HDF file.  A state is the history; the database *and* the file are rebuilt by replay
-inside ``ctx.scratch`` (one file per rebuilt history, removed when the state object dies).  After every
+``Database`` and its HDF file.  A state is the history; every expanded state (database *and* file) is
+rebuilt by replay inside ``ctx.scratch`` (one file per state object, removed when the object dies); its
+successors start from a copy of it (deep copy of the database + copy of the file; ``VERIF_C11_REPLAY_ONLY=1``
+rebuilds every successor by replay instead - both modes give the same states/transitions).  After every
 export the file is reloaded with ``Database.from_hdf`` and compared with the in-memory database, and with
 the reload of one fresh ``append=False`` export of the same content.
 
@@ -23,9 +25,11 @@ Oracle boundaries (what the statement leaves open is either not enumerated or ac
 """
 from __future__ import annotations
 
+import copy
 import itertools
 import math
 import os
+import shutil
 
 import numpy as np
 from numpy import inf
@@ -175,6 +179,7 @@ class Sys:
         self.exported = False
         self.findings: list[tuple[str, str]] = []  # violations observed by the last operation
         self.last_value_kind = "-"
+        self.digest = None  # digest of the file tree, recomputed after every export
 
     def close(self):
         for p in (self.path, self.path + ".fresh"):
@@ -185,6 +190,17 @@ class Sys:
 
     def __del__(self):
         self.close()
+
+
+def _kind_class(kinds: list) -> str:
+    """Shape class of the values of the last store: nothing / scalar / array(<kind>) / scalar+array."""
+    if not kinds:
+        return "nothing"
+    sc = [k for k in kinds if k == "s"]
+    ar = sorted({k for k in kinds if k != "s"})
+    if sc and ar:
+        return "scalar+array"
+    return "scalar" if sc else "array:" + "".join(ar) if len(ar) == 1 else "arrays"
 
 
 def _apply(s: Sys, op: list, oracle: bool = True):
@@ -200,16 +216,17 @@ def _apply(s: Sys, op: list, oracle: bool = True):
         names = list(op[2])
         s.db.store(_point(i), {n: _value(i, n) for n in names})
         s.stored += 1
-        s.last_value_kind = "+".join(sorted(_CFG["kinds"][i][n] for n in names)) or "nothing"
+        s.last_value_kind = _kind_class([_CFG["kinds"][i][n] for n in names])
         return None
     if k == "add":
         i, n = op[1], op[2]
         if i >= s.stored or n in s.db[_point(i)]:
             raise Rejected("not enabled")
         s.db.store(_point(i), {n: _value(i, n)})
-        s.last_value_kind = _CFG["kinds"][i][n]
+        s.last_value_kind = _kind_class([_CFG["kinds"][i][n]])
         return None
     if k in ("exp_a", "exp_w"):
+        s.digest = None
         try:
             s.db.to_hdf(s.path, append=(k == "exp_a"), hdf_node_path=s.node)
         except Exception as e:
@@ -248,7 +265,9 @@ def _apply(s: Sys, op: list, oracle: bool = True):
 
 
 class Spec:
-    def __init__(self, scratch: str, cfg: dict, new_menus: list, nodes: list, nested_menus: list | None = None):
+    def __init__(self, scratch: str, cfg: dict, new_menus: list, nodes: list, nested_menus: list | None = None, use_clone: bool = True):
+        if not use_clone:  # pure replay: every successor is rebuilt from scratch (VERIF_C11_REPLAY_ONLY=1)
+            self.clone = None
         self.scratch = scratch
         self.cfg = cfg
         self.new_menus = new_menus
@@ -269,6 +288,7 @@ class Spec:
                 _apply(s, op, oracle=(j == last))
             except Rejected:
                 pass
+        s.digest = _file_digest(s.path)  # inherited by the copies until their next export
         return s
 
     def enabled(self, s, hist):
@@ -303,7 +323,23 @@ class Spec:
         )
         pending = s.db.__dict__[MD + "hdf_database"].__dict__[MH + "pending_arrays"]
         pend = tuple((h, a.wrapped_array.dtype.str, a.wrapped_array.tobytes()) for h, a in pending.items())
-        return (s.node, content, pend, _file_digest(s.path))
+        if s.digest is None:
+            s.digest = _file_digest(s.path)
+        return (s.node, content, pend, s.digest)
+
+    def clone(self, s):
+        """Deep copy of the database (the pending arrays stay the key objects of the copy) + copy of the file.
+
+        Every expanded state itself is rebuilt by replay (``build``); only its successors start from a copy.
+        """
+        t = Sys.__new__(Sys)
+        t.db = copy.deepcopy(s.db)
+        t.node, t.scratch, t.stored, t.exported = s.node, s.scratch, s.stored, s.exported
+        t.path = os.path.join(s.scratch, f"h_{os.getpid()}_{next(_COUNTER)}.h5")
+        if os.path.exists(s.path):
+            shutil.copyfile(s.path, t.path)
+        t.findings, t.last_value_kind, t.digest = list(s.findings), s.last_value_kind, s.digest
+        return t
 
     def nontrivial(self, hist):
         # at least two exports, the last one in append mode, with a store in between
@@ -320,9 +356,10 @@ def run_h(ctx) -> dict:
     depth = 6 if ctx.thorough else 5
     menus = NEW_MENUS_FULL if ctx.thorough else NEW_MENUS_QUICK
     nested = menus if ctx.thorough else NEW_MENUS_QUICK[:3]
-    spec = Spec(ctx.scratch, _cfg(ctx), menus, NODES, nested)
+    replay_only = os.environ.get("VERIF_C11_REPLAY_ONLY") == "1"
+    spec = Spec(ctx.scratch, _cfg(ctx), menus, NODES, nested, use_clone=not replay_only)
     info = explore.bfs(spec, depth, ctx.tally, jobs=ctx.jobs)
-    return {"depth": depth, "new_menus_root": [list(m) for m in menus], "new_menus_nested": [list(m) for m in nested], **info}
+    return {"depth": depth, "successors_built_by": "replay" if replay_only else "copy of the replayed parent (database deep copy + file copy)", "new_menus_root": [list(m) for m in menus], "new_menus_nested": [list(m) for m in nested], **info}
 
 
 # ------------------------------------------------------------------------------------------------
@@ -416,7 +453,7 @@ def compare_space(ds, back, exact: bool) -> list[tuple[str, str, str]]:
             else:
                 ok = x.shape == y.shape and all(_text_close(p, q) for p, q in zip(x, y))
             if not ok:
-                bad.append((f"space-{fld}", bk, f"{n}: {fld} {x!r} reloaded as {y!r}"))
+                bad.append((f"space-{fld}", bk, f"{n}: {fld} {x.tolist()!r} ({x.dtype}) reloaded as {y.tolist()!r} ({y.dtype})"))
         x, y = ds._current_value.get(n), back._current_value.get(n)
         if (x is None) != (y is None):
             bad.append(("space-value-presence", kind, f"{n}: current value {x!r} reloaded as {y!r}"))
@@ -427,7 +464,7 @@ def compare_space(ds, back, exact: bool) -> list[tuple[str, str, str]]:
             else:
                 ok = x.shape == y.shape and all(_text_close(p, q) for p, q in zip(x, y))
             if not ok:
-                bad.append(("space-value", kind, f"{n}: current value {x!r} reloaded as {y!r}"))
+                bad.append(("space-value", kind, f"{n}: current value {x.tolist()!r} reloaded as {y.tolist()!r}"))
     if exact and not bad and not (ds == back and back == ds):
         bad.append(("space-eq", "DesignSpace.__eq__", f"field-wise identical but == is False:\n{ds!r}\n{back!r}"))
     return bad
@@ -441,11 +478,8 @@ def _r1_observe(case: dict) -> tuple[list, str]:
     path = os.path.join(_SCRATCH, f"ds_{os.getpid()}_{next(_COUNTER)}" + (".csv" if fmt == "csv" else ".h5"))
     try:
         try:
-            if fmt == "csv":
-                ds.to_csv(path)
-                back = DesignSpace.from_file(path)
-            elif fmt == "hdf":
-                ds.to_hdf(path)
+            if fmt in ("csv", "hdf"):  # through the suffix / content dispatch of to_file / from_file
+                ds.to_file(path)
                 back = DesignSpace.from_file(path)
             else:
                 ds.to_hdf(path, hdf_node_path="grp/sub")
@@ -612,15 +646,14 @@ def compare_problem(p, q) -> list[tuple[str, str, str]]:
     funcs("constraint", list(p.constraints), list(q.constraints))
     funcs("observable", list(p.observables), list(q.observables))
     for label, u, v in (
-        ("tolerance-equality", p.tolerances.equality, q.tolerances.equality),
-        ("tolerance-inequality", p.tolerances.inequality, q.tolerances.inequality),
+        ("tolerances", (p.tolerances.equality, p.tolerances.inequality), (q.tolerances.equality, q.tolerances.inequality)),
         ("minimize_objective", p.minimize_objective, q.minimize_objective),
         ("differentiation_method", p.differentiation_method, q.differentiation_method),
         ("differentiation_step", p.differentiation_step, q.differentiation_step),
         ("is_linear", p.is_linear, q.is_linear),
     ):
         if not _same_field(u, v):
-            bad.append((f"problem-{label}", type(u).__name__, f"{label}: {u!r} reloaded as {v!r}"))
+            bad.append((f"problem-{label}", "description", f"{label}{' (equality, inequality)' if label == 'tolerances' else ''}: {u!r} reloaded as {v!r}"))
     if (p.solution is None) != (q.solution is None):
         bad.append(("problem-solution-presence", "solution", f"{p.solution!r} reloaded as {q.solution!r}"))
     elif p.solution is not None:
@@ -802,6 +835,8 @@ def _r3_cases(thorough: bool):
             for h in hists:
                 if sparse and not any(o == "lin" for o, _ in h):
                     continue
+                if not thorough and node != "node" and 2 < len(h) < 10:
+                    continue  # quick: the nested node gets the histories of length <= 2 and the long one
                 out.append({"ops": h, "node": node, "sparse": sparse, "tol": 0.0})
     out.append({"ops": hists[-1], "node": "node", "sparse": False, "tol": 1e-9})
     return out
